@@ -21,6 +21,10 @@ def auto_size_cases(ctx):
         except Exception as e:  # noqa
             ctx.notes.append(f"mkfs without size refused FAT{ft} {size}: {e}")
             continue
+        # formatting itself: nothing in front of or behind the volume is touched (C08-m8: a wipe of the system area positioned without the offset)
+        if dev.outside or not dev.guards_intact():
+            ctx.violation(f"mkfs FAT{ft} of {size} bytes at offset {off} touched the device outside the volume: {dev.outside[:1] or 'guard bytes modified'}",
+                          "mkfs-outside", dict(fat_type=ft, size=size, offset=off, size_argument=None, **kw))
         img = dev.volume()
         try:
             v = fatspec.Volume(img)
@@ -31,6 +35,19 @@ def auto_size_cases(ctx):
             bpc, count = bps * spc, 700
         out.append(history.Case(f"mkfs{ft}-auto-size@{off}", img, _hist.fill_program(bpc, count), mount=dict(encoding="ibm437", offset=off),
                                 meta=dict(source="mkfs", ft=ft, size=size, size_argument=None, offset=off, **kw)))
+    for ft, size, off in ((12, 200 * 1024, 32256), (16, 8500 * 512, 1048576), (32, 66700 * 512, 4096)):
+        if ft == 32 and ctx.tier == "quick" and ctx.seed % 2:
+            continue
+        try:
+            dev, pf = core.mkfs_image(ft, size, offset=off)
+        except Exception as e:  # noqa
+            ctx.notes.append(f"mkfs FAT{ft} {size}@{off} refused: {e}")
+            continue
+        ctx.evaluations += 1
+        ctx.dist["mkfs-at-offset"] += 1
+        if dev.outside or not dev.guards_intact():
+            ctx.violation(f"mkfs FAT{ft} of {size} bytes at offset {off} touched the device outside the volume: {dev.outside[:1] or 'guard bytes modified'}",
+                          "mkfs-outside", dict(fat_type=ft, size=size, offset=off))
     return out
 
 
